@@ -87,7 +87,7 @@ def lin_of(fn, du, op, cfgd, depth=0):
         return Lin(("h",))
     if bound[0] == "field" and meaningful[-1:] == [bound[1]]:
         return Lin(("L",))
-    if p["p"] and not all(e["k"] == "field" and e["name"] in ("0", "1") for e in p["p"]):
+    if p["p"] and not all((e["k"] == "field" and e["name"] in ("0", "1")) or e["k"] == "downcast" for e in p["p"]):
         return Lin(("other", str(names)))
     d = du.sole_def(p["l"])
     if d is None:
@@ -100,6 +100,14 @@ def lin_of(fn, du, op, cfgd, depth=0):
             a0 = op_place(t["args"][0])
             if a0 is not None and bound[1] in field_names_of_place(fn, du, a0):
                 return Lin(("L",))
+        if last == "checked_sub" and any(e["k"] == "downcast" for e in p["p"]):
+            # (checked_sub(a, k) as Some).0  ==  a - k, and being in the Some arm implies a >= k
+            a = lin_of(fn, du, t["args"][0], cfgd, depth + 1)
+            b = lin_of(fn, du, t["args"][1], cfgd, depth + 1)
+            if b.base == ("const",) and a.base in (("h",), ("L",)):
+                r = Lin(a.base, a.off - b.off)
+                r.implied_ge = (a.base, b.off - a.off)   # base >= k
+                return r
         if last == "saturating_sub":
             a = lin_of(fn, du, t["args"][0], cfgd, depth + 1)
             b = lin_of(fn, du, t["args"][1], cfgd, depth + 1)
@@ -231,6 +239,178 @@ def closure_guard(F, f, cfgd):
     return []
 
 
+def aff_of(fn, du, op, cfgd, depth=0):
+    """affine form {h, L, p<n> (parameter n), 1: const} of an operand, or None"""
+    if op.get("k") == "const":
+        v = op.get("val")
+        return {1: v} if isinstance(v, int) else None
+    p = op_place(op)
+    if p is None or depth > 12:
+        return None
+    names = [n for n in field_names_of_place(fn, du, p) if n not in ("0", "1", "pointer")]
+    if names[-1:] == [cfgd["height"]]:
+        return {"h": 1}
+    if p["p"] and not all(e["k"] == "field" and e["name"] in ("0", "1") for e in p["p"]):
+        return None
+    l = p["l"]
+    if 1 <= l <= fn.mir["arg_count"] and not [d for d in du.defs.get(l, []) if not d[3].get("place", d[3].get("dest"))["p"]]:
+        return {"p%d" % l: 1}
+    d = du.sole_def(l)
+    if d is None:
+        return None
+    if d[2] == "call":
+        t = d[3]
+        last = callee_names(t["func"])[0].rsplit("::", 1)[-1]
+        if last == "len" and cfgd["bound"][0] == "len":
+            a0 = op_place(t["args"][0])
+            if a0 is not None and cfgd["bound"][1] in field_names_of_place(fn, du, a0):
+                return {"L": 1}
+        return None
+    rv = d[3]["rv"]
+    k = rv["k"]
+    if k in ("use", "cast"):
+        return aff_of(fn, du, rv["op"], cfgd, depth + 1)
+    if k == "bin" and rv["op"] in ("Add", "AddWithOverflow", "Sub", "SubWithOverflow", "AddUnchecked", "SubUnchecked"):
+        a = aff_of(fn, du, rv["l"], cfgd, depth + 1)
+        b = aff_of(fn, du, rv["r"], cfgd, depth + 1)
+        if a is None or b is None:
+            return None
+        sign = 1 if rv["op"].startswith("Add") else -1
+        out = dict(a)
+        for kk, v in b.items():
+            out[kk] = out.get(kk, 0) + sign * v
+        return out
+    if k == "un" and rv["op"] == "PtrMetadata" and cfgd["bound"][0] == "len":
+        p2 = op_place(rv["x"])
+        if p2 is not None and cfgd["bound"][1] in field_names_of_place(fn, du, p2):
+            return {"L": 1}
+    return None
+
+
+def aff_guards(fn, du, block, cfgd):
+    cfg = fn.cfg
+    out = []
+    for g in cfg.dom.get(block, ()):
+        if g == block:
+            continue
+        t = fn.blocks[g]["term"]
+        if t["k"] != "switch":
+            continue
+        cond = op_local(t["discr"])
+        st = None
+        for s_ in fn.blocks[g]["stmts"]:
+            if s_["k"] == "assign" and s_["place"]["l"] == cond and s_["rv"]["k"] == "bin" and s_["rv"]["op"] in CMP:
+                st = s_
+        if st is None:
+            continue
+        zero = dict((v, bb) for v, bb in t["targets"]).get(0)
+        if zero is None:
+            continue
+        true_t = t["otherwise"]
+        if cfg.dominates(true_t, block) and not cfg.dominates(zero, block):
+            truth = True
+        elif cfg.dominates(zero, block) and not cfg.dominates(true_t, block):
+            truth = False
+        else:
+            continue
+        a = aff_of(fn, du, st["rv"]["l"], cfgd)
+        b = aff_of(fn, du, st["rv"]["r"], cfgd)
+        if a is not None and b is not None:
+            out.append((st["rv"]["op"], a, b, truth))
+    return out
+
+
+def aff_eval(a, env):
+    return sum(v * (env[k] if k != 1 else 1) for k, v in a.items())
+
+
+def aff_implied(guards, idx, hmax=6, pmax=7):
+    """for all small heights, capacities and parameter values consistent with the guards: 0 <= idx < height ?"""
+    params = sorted(set(k for g in guards for a in (g[1], g[2]) for k in a if isinstance(k, str) and k.startswith("p")) |
+                    set(k for k in idx if isinstance(k, str) and k.startswith("p")))
+    import itertools
+    seen_state = False
+    for L in range(0, hmax):
+        for h in range(0, L + 1):
+            for pv in itertools.product(range(0, pmax), repeat=len(params)):
+                env = {"h": h, "L": L}
+                env.update(dict(zip(params, pv)))
+                if all(CMP[op](aff_eval(a, env), aff_eval(b, env)) == truth for op, a, b, truth in guards):
+                    seen_state = True
+                    v = aff_eval(idx, env)
+                    if not (0 <= v < h):
+                        return False, env
+    return seen_state, None
+
+
+def rule_n(F):
+    """C14.N: every element the value stack hands out is a live one: an indexed read of `data` at height+off happens only
+    where the guards imply 0 <= height+off < height (a read at or beyond the height must produce nil instead: pop_n and
+    clear_until lower the height without clearing the slots, so the slots above it hold stale values)."""
+    res = []
+    adt = "collections::value_stack::ValueStack"
+    cfgd = STACKS[adt]
+    n = 0
+    for f in stack_fns(F, adt):
+        du = DefUse(f)
+        fname = (f.root or f.short).rsplit("::", 1)[-1] + ("{closure}" if f.is_closure else "")
+        inherited = closure_guard(F, f, cfgd)
+        k = 0
+        for bi, b in enumerate(f.blocks):
+            for st in b["stmts"]:
+                if st["k"] != "assign" or st["rv"]["k"] != "use":
+                    continue
+                pl = op_place(st["rv"]["op"])
+                if pl is None:
+                    continue
+                idx = [e for e in pl["p"] if e["k"] == "index"]
+                if not idx:
+                    continue
+                base_names = field_names_of_place(f, du, {"l": pl["l"], "p": []})
+                if cfgd["bound"][1] not in base_names:
+                    continue
+                lin = lin_of(f, du, {"k": "copy", "place": {"l": idx[0]["local"], "p": []}}, cfgd)
+                guards = guards_on_path(f, du, bi, cfgd) + inherited
+                ig = getattr(lin, "implied_ge", None)
+                if ig is not None and ig[0] == ("h",):
+                    guards = guards + [("Ge", Lin(("h",)), Lin(("const",), ig[1]), True)]
+                key = "C14/N/ValueStack::%s/read%s-is-below-height" % (fname, "" if k == 0 else "#%d" % k)
+                k += 1
+                loc = f.loc(st.get("ln"))
+                if lin.base == ("h",):
+                    off = lin.off
+                    n += 1
+                    if off < 0 and implied(guards, lambda h, L, off=off: h + off >= 0):
+                        res.append(ok("C14.N", key, loc, "reads slot height%+d under a guard that implies height >= %d" % (off, -off)))
+                    else:
+                        res.append(bad("C14.N", key, loc, "ValueStack::%s reads slot height%+d without a guard that keeps it below the height: "
+                                       "a stale value left by pop_n / clear_until is returned where nil is due" % (fname, off)))
+                elif lin.base[0] == "sat" and lin.base[1] == ("h",):
+                    off = lin.base[2]
+                    n += 1
+                    if implied(guards, lambda h, L, off=off: h + off >= 0):
+                        res.append(ok("C14.N", key, loc, "reads slot max(height%+d, 0) where the guard implies height >= %d" % (off, -off)))
+                    else:
+                        res.append(bad("C14.N", key, loc,
+                                       "ValueStack::%s reads slot max(height%+d, 0): on an empty stack that is slot 0, which holds whatever "
+                                       "pop_n / clear_until left there - a read at or beyond the height must be nil" % (fname, off)))
+                else:
+                    aff = aff_of(f, du, {"k": "copy", "place": {"l": idx[0]["local"], "p": []}}, cfgd)
+                    if aff is None:
+                        res.append(note("C14.N", key, loc, "index is not an affine form of height and parameters (loop index): not decided here"))
+                    else:
+                        n += 1
+                        good, cex = aff_implied(aff_guards(f, du, bi, cfgd), aff)
+                        if good:
+                            res.append(ok("C14.N", key, loc, "index %s is below the height in every state the guards admit" % aff))
+                        else:
+                            res.append(bad("C14.N", key, loc, "ValueStack::%s reads slot %s which can be at or beyond the height (%s): a stale value "
+                                           "is returned where nil is due" % (fname, aff, cex)))
+    if n < 2:
+        raise AnchorMissing("height-relative reads of ValueStack.data (found %d)" % n)
+    return res
+
+
 def rule_b(F):
     res = []
     for adt, cfgd in STACKS.items():
@@ -259,6 +439,10 @@ def rule_b(F):
                     n_stores += 1
                     val = lin_of(f, du, st["rv"]["op"], cfgd) if st["rv"]["k"] == "use" else Lin(("other", st["rv"]["k"]))
                     guards = guards_on_path(f, du, bi, cfgd) + inherited
+                    ig = getattr(val, "implied_ge", None)
+                    if ig is not None and ig[0] == ("h",):
+                        # value taken from the Some arm of checked_sub(height, k): height >= k holds there
+                        guards = guards + [("Ge", Lin(("h",)), Lin(("const",), ig[1]), True)]
                     n = counters.get("s", 0)
                     counters["s"] = n + 1
                     key = "C14/B/%s::%s/height-store#%d" % (sname, fname, n)
@@ -477,6 +661,7 @@ def rule_f(F):
 
 
 RULES = [
+    Rule("C14.N", rule_n, 4, "elements handed out are below the height (reads at or beyond it are nil)"),
     Rule("C14.B", rule_b, 12, "guarded height changes and unchecked accesses of both stacks"),
     Rule("C14.F", rule_f, 4, "a failing push leaves the contents unchanged and happens only when the stack is full"),
 ]
